@@ -46,6 +46,7 @@ class Exec(ExecBase):
         self.ok_liquid = 0
         self.decoded = 0
         self.ended_by_rejection = False
+        self.resynced_after_rejection = False
         self.outcomes = []
         self.probes = {}
 
@@ -108,9 +109,26 @@ def execute(world, opsource):
                     if not out.ok:
                         if liquid or len(sess.wl) != seen:
                             # the statement is about successful sequences: a rejected liquid operation leaves the
-                            # twin legitimately ahead of the records - the run ends here without verdict
-                            res.ended_by_rejection = True
-                            break
+                            # twin legitimately ahead of the records. Either the run ends here without verdict, or
+                            # (worlds with `continue_after_rejection`) the script catches the error and carries on:
+                            # the state the rejection left behind is then simply the start state of a new sequence
+                            # of successful operations - the robot executes whatever records the refused call did
+                            # append, adopts the twin's volumes (all content unknown from here) and the comparison
+                            # goes on with the operations that follow.
+                            if not world.get("continue_after_rejection"):
+                                res.ended_by_rejection = True
+                                break
+                            recs = sess.records()
+                            for rec in recs[seen:]:
+                                provs.append(None)
+                                try:
+                                    robot.execute(rec, None)
+                                except DecodeError:
+                                    pass
+                            seen = len(recs)
+                            resync(robot, sess)
+                            res.resynced_after_rejection = True
+                            res.probes["continued_after_rejection"] = res.probes.get("continued_after_rejection", 0) + 1
                         i += 1
                         continue
                     recs = sess.records()
@@ -152,7 +170,9 @@ def execute(world, opsource):
                             fail("C01.volume", i, op, "ok", d)
                             desync = True
                     if not desync and track:
-                        d = check_composition(robot, sess, ftol, name_map)
+                        # after each operation: the wells its records touched (all wells again at the end of the run)
+                        touched = {(name, w) for _rec, eff in effects for (name, w, _dv) in eff}
+                        d = check_composition(robot, sess, ftol, name_map, touched)
                         if d:
                             fail("C01.composition", i, op, "ok", d)
                             desync = True
@@ -160,6 +180,10 @@ def execute(world, opsource):
                         resync(robot, sess)
                     nops += 1
                     i += 1
+                if track and not res.violations and res.ops:
+                    d = check_composition(robot, sess, ftol, name_map)
+                    if d:
+                        fail("C01.composition", len(res.ops) - 1, res.ops[-1], "ok", "at the end of the run: " + d)
                 body_done = True
         except UnicodeEncodeError as e:
             # leaving the with block saves; records that cannot be written in the format's encoding (Latin-1) are
@@ -197,7 +221,7 @@ def execute(world, opsource):
             lines = text.split("\r\n") if text else []
             if lines != recs:
                 fail("C01.file", last, lop, "ok", f"the file holds {len(lines)} lines that differ from the {len(recs)} records")
-            else:
+            elif not res.resynced_after_rejection:
                 r2 = Robot(device, world["labware"], per_record_slack=slack, eps=eps, track_comp=track)
                 try:
                     for j, rec in enumerate(lines):
@@ -309,12 +333,15 @@ def check_volumes(robot, sess, nops):
     return None
 
 
-def check_composition(robot, sess, ftol, name_map):
+def check_composition(robot, sess, ftol, name_map, only=None):
+    """only: set of (labware name, real well) to look at (the wells the operation's records touched); None = all."""
     for i, g in enumerate(sess.geos):
         lab = robot.labs[g.name]
         comp = None
         for w, v in lab.vol.items():
             if v <= 0 or w in lab.taint:
+                continue
+            if only is not None and (g.name, w) not in only:
                 continue
             if comp is None:
                 comp = sess.composition(i)
@@ -363,6 +390,8 @@ class Program:
             opts["integer_max_volume"] = True
         self.world = gen_world(rng, opts)
         self.gen = Gen(rng, self.world, {"p_comp": 0.75})
+        if rng.random() < 0.4:
+            self.world["continue_after_rejection"] = True
         r = rng.random()
         self.n = rng.randint(1, 6) if r < 0.5 else rng.randint(5, 14) if r < 0.9 else rng.randint(15, 40)
         if tier == "thorough" and rng.random() < 0.2:
@@ -379,6 +408,17 @@ class Program:
             return self.bad_form(sess)
         if r < 0.12:
             return g.gen_misc()
+        if r < 0.19 and self.world.get("continue_after_rejection"):
+            # a call the library refuses (caught by the script, which carries on)
+            q = rng.random()
+            if q < 0.4:
+                return g.gen_transfer(sess, rng.choice(["reject.underflow", "reject.overflow"]))
+            kind = rng.choice(["aspirate", "dispense"])
+            return g.gen_addremove(sess, kind, intent="reject.underflow" if kind == "aspirate" else "reject.overflow")
+        if r < 0.215:
+            op = g.gen_self_volumes(sess)
+            if op is not None:
+                return op
         if r < 0.55:
             return g.gen_transfer(sess, "ok")
         if r < 0.70:
